@@ -79,6 +79,51 @@ func newLineUniverse(r *hlib.Rand) *lineUniverse {
 
 var histogramTags = []string{"gsd_histogram:10_20_50", "gsd_histogram:-5_0_2.5_1e3", "gsd_histogram:1", "gsd_histogram:10_abc_50_", "gsd_histogram:", "gsd_histogram:_x_", "gsd_histogram:100_10_100"}
 
+// General float regime for counters (and for single-sample timers): arbitrary sample rates in
+// (0, 1] and values up to ~10^6, |value/rate| < 2^53.  int64(value/rate) is computed once per
+// sample and summed in int64, so counter totals are exact whatever the rate; the model computes
+// the same quotient bit-exactly with primitive floats.
+func generalRate(r *hlib.Rand) float64 {
+	switch r.Intn(6) {
+	case 0, 1:
+		return float64(r.Range(1, 100)) / 100 // 0.13, 0.17, 0.07, 0.03, 0.37, 0.99 ...
+	case 2:
+		return hlib.Pick(r, []float64{0.13, 0.17, 0.07, 0.03, 0.37, 0.99, 0.3, 0.7, 0.9, 0.11, 0.33, 0.001, 0.003})
+	case 3:
+		return float64(r.Range(1, 1000)) / 1000
+	default:
+		f := r.Float()
+		if f < 1e-6 {
+			f = 1e-6
+		}
+		return f
+	}
+}
+
+func generalValue(r *hlib.Rand) float64 {
+	switch r.Intn(6) {
+	case 0, 1:
+		return float64(r.Range(1, 300)) // 13, 255, 7 ...
+	case 2:
+		return float64(r.Range(-1000000, 1000000))
+	case 3:
+		return float64(r.Range(-100000000, 100000000)) / 100 // two decimals, not dyadic
+	case 4:
+		return -float64(r.Range(1, 300))
+	default:
+		return float64(r.Range(0, 1000000)) * r.Float()
+	}
+}
+
+func fmtFloat(f float64) string { return strconv.FormatFloat(f, 'f', -1, 64) }
+
+// soloTimerLine is a timer line of a series that receives exactly this one sample in the whole
+// run, so its sampled count is the double 1/rate itself (no float summation) and an arbitrary
+// rate can be compared exactly.
+func soloTimerLine(r *hlib.Rand, k int) string {
+	return fmt.Sprintf("zsolo%d:%s|ms|@%s", k, fmtFloat(generalValue(r)), strconv.FormatFloat(generalRate(r), 'g', -1, 64))
+}
+
 func genLine(r *hlib.Rand, u *lineUniverse) string {
 	if r.Chance(1, 40) { // the reject path of the parser: the line is dropped, nothing else is
 		return hlib.Pick(r, []string{"", "nocolon", "a:1|x", "b:zz|c", "c:1|c|@0", ":1|c"})
@@ -91,15 +136,34 @@ func genLine(r *hlib.Rand, u *lineUniverse) string {
 	var sb strings.Builder
 	sb.WriteString(name)
 	sb.WriteByte(':')
+	general := ty == "c" && r.Bool()
+	pairedRate := ""
 	if ty == "s" {
 		sb.WriteString(strings.ReplaceAll(hlib.Pick(r, u.Members), "|", ""))
+	} else if general && r.Chance(1, 3) {
+		// value/rate is an integer in exact arithmetic (13 @0.13, 255 @0.17, 7 @0.07): the
+		// rounding of the float quotient decides which side of it truncation lands on
+		k, m := r.Range(1, 99), r.Range(1, 3000)
+		if r.Chance(1, 5) {
+			m = -m
+		}
+		sb.WriteString(strconv.Itoa(k * m))
+		pairedRate = strconv.FormatFloat(float64(k)/100, 'g', -1, 64)
+	} else if general {
+		sb.WriteString(fmtFloat(generalValue(r)))
 	} else {
-		sb.WriteString(strconv.FormatFloat(mmgen.ExactValue(r), 'f', -1, 64))
+		sb.WriteString(fmtFloat(mmgen.ExactValue(r)))
 	}
 	sb.WriteByte('|')
 	sb.WriteString(ty)
 	rate := func() {
-		if r.Chance(1, 2) {
+		if pairedRate != "" {
+			sb.WriteString("|@" + pairedRate)
+		} else if general {
+			if r.Chance(5, 6) {
+				sb.WriteString("|@" + strconv.FormatFloat(generalRate(r), 'g', -1, 64))
+			}
+		} else if r.Chance(1, 2) {
 			sb.WriteString("|@" + hlib.Pick(r, rateStrings))
 		}
 	}
@@ -140,6 +204,7 @@ func genSys(r *hlib.Rand, tier string) input {
 	in.Sched = r.U64()
 	u := newLineUniverse(r)
 	nlines := r.Range(40, 220)
+	solo := 0
 	ts := int64(1000)
 	for nlines > 0 {
 		nd := r.Range(1, 3)
@@ -152,7 +217,12 @@ func genSys(r *hlib.Rand, tier string) input {
 			nlines -= nl
 			lines := make([]string, nl)
 			for i := range lines {
-				lines[i] = genLine(r, u)
+				if solo < 3 && r.Chance(1, 40) {
+					lines[i] = soloTimerLine(r, solo)
+					solo++
+				} else {
+					lines[i] = genLine(r, u)
+				}
 			}
 			msg := strings.Join(lines, "\n")
 			if r.Bool() {
